@@ -46,6 +46,7 @@ type Script struct {
 	epochFrontier map[int]string
 	nepoch   int
 	strlits  map[string]string
+	lenFacts map[string]bool // slice terms whose non-negative length has been stated
 	oldEq    map[string]string // heap version -> root version it agrees with on all objects older than the entry frontier
 	steps    map[string]eqStep // heap version -> previous version it agrees with on every object whose rb is below all bounds
 	linfo    []lineInfo
@@ -225,6 +226,7 @@ func (sc *Script) truncate(n int) {
 		}
 	}
 	sc.lines = sc.lines[:n]
+	sc.lenFacts = nil // some of them may just have been cut off
 }
 
 func (sc *Script) regTag(tag, srt string) {
